@@ -332,10 +332,10 @@ func (r *renderer) step(s *Step, bare bool) StepText {
 	return StepText{Written: written, Names: names}
 }
 
-func (r *renderer) path(p *Path) []StepText {
+func (r *renderer) path(p *Path, top bool) []StepText {
 	texts := make([]StepText, len(p.Steps))
 	root := p.Root
-	if r.st.Vary() && root == RootDollar && len(p.Steps) > 0 && omittable(&p.Steps[0]) && r.st.Pick("root", 4) == 3 {
+	if top && r.st.Vary() && root == RootDollar && len(p.Steps) > 0 && omittable(&p.Steps[0]) && r.st.Pick("root", 4) == 3 {
 		root = RootOmitted
 	}
 	switch root {
@@ -359,7 +359,7 @@ func omittable(s *Step) bool {
 }
 
 func (r *renderer) operandPath(p *Path) {
-	r.path(p)
+	r.path(p, false) // only a top-level path may omit its "$"
 }
 
 func (r *renderer) lit(o *Operand) {
@@ -472,7 +472,7 @@ func (r *renderer) query(q *Query) {
 func Render(p *Path, st Style) Rendered {
 	r := &renderer{st: st}
 	r.sp()
-	texts := r.path(p)
+	texts := r.path(p, true)
 	r.sp()
 	return Rendered{Text: r.sb.String(), Steps: texts}
 }
